@@ -21,7 +21,9 @@ Written from `exactly help case spec` (chapter "File syntax"), `help directive i
 How many lines an instruction spans is decided by a small model of the instruction sub-language that the C07
 generators emit (NOT a general instruction parser): `$`/`%` take the rest of their line; a line whose last
 token is `<<MARKER` is followed by a here-document that ends with a line equal to MARKER; an open `(` keeps
-the instruction going until it is closed; a trailing `||`, `&&`, `!` or list continuation `\\` continues on
+the instruction going until it is closed, and so does an open `{` (FILES-SOURCE, FILES-CONDITION: one file
+per line between the braces); the `-stdin` part of a program "must appear on a separate line" after the
+program's arguments; a trailing `||`, `&&`, `!` or list continuation `\\` continues on
 the next line; an instruction that consists of its name only although it has a mandatory argument, or that
 ends with `=`, is incomplete (a syntax error).  A header line never is part of such a continuation: it
 "declares the start of a phase".
@@ -29,6 +31,18 @@ ends with `=`, is incomplete (a syntax error).  A header line never is part of s
 A list continuation directly followed by a header line has two readings (`list_reading`): 'error' (the
 instruction is unfinished) and 'complete' (the list has no more elements, which is how the program treats a
 continuation at end of file).
+
+An incomplete instruction followed (after blank lines) by a line with comment syntax has no single reading:
+the manual says both "comments may not appear inside instructions" and "empty lines, and lines with comment
+line syntax, may be part of instructions", and "some instructions may span multiple lines ... the syntax is
+not always consistent" - so the `#` line is either a comment after an erroneous instruction or (part of) the
+argument of the instruction.  Only header lines and the end of the file end an instruction for certain.
+
+When a document has several errors the manual does not say which one is reported.  The reader reports the
+first one in reading order as `error` and keeps reading ("recovery": the rest of the phase block of an error
+is skipped, reading goes on at the next header line; an included file with an error is left at its next
+header line too) to collect `later_errors` - a superset of the further errors of the document (a skipped block
+may hide the start of a here-document whose body looks like a header).
 
 `swallow=True` reads the same text under the defect model of known finding KF-C07-1: an incomplete
 instruction takes the next non-blank, non-comment line as its missing argument even when that line is a
@@ -110,7 +124,7 @@ def un_escape(line):
 _PATH = r'[^\s`"\'()=:]+'
 _STR = r'("[^"`]*"|[^\s`"\'()=:]+)'
 _FORMS = {
-    'dir': r'dir %s' % _PATH,
+    'dir': r'dir %s( = \{)?' % _PATH,
     'cd': r'cd %s' % _PATH,
     'copy': r'copy %s( %s)?' % (_PATH, _PATH),
     'file': r'file %s( = (%s|<<\S+))?' % (_PATH, _STR),
@@ -147,6 +161,10 @@ class Ambiguous(Exception):
     """the manual gives no single reading of the document from here on"""
 
 
+class _BudgetExceeded(Exception):
+    pass
+
+
 class DocError(Exception):
     def __init__(self, kind, what, path, lo, hi):
         """kind: 'syntax' | 'access'; path: [(file, line, text), ...] chain of directives;
@@ -166,6 +184,7 @@ class Reader:
         self.phases = {p: [] for p in PHASES}
         self.labels = set()
         self.error = None
+        self.later_errors = []
         self.ambiguous = None
         self.max_depth = 0
         self.n_inclusions = 0
@@ -174,19 +193,34 @@ class Reader:
         self.borders = {}  # file -> indices of its top level header lines (files that were read)
         self._visited = set()
         self._budget = max_files
+        self._recovering = False
+        self._labels_of_reading = self.labels
 
     # ---- public ---------------------------------------------------------
     def read(self, root):
         try:
             self._read_file(root, DEFAULT_PHASE, [], [posixpath.normpath(root)])
-        except DocError as ex:
-            self.error = {'kind': ex.kind, 'what': ex.what, 'chain': [list(c) for c in ex.path[:-1]],
-                          'file': ex.path[-1][0], 'lo': ex.lo, 'hi': ex.hi}
-            self.labels.add('err:' + ex.what)
         except Ambiguous as ex:
             self.ambiguous = str(ex)
             self.labels.add('no-single-reading:' + str(ex))
+        except _BudgetExceeded:
+            pass  # (only while collecting later errors)
+        self.labels = self._labels_of_reading
+        if self.later_errors:
+            self.labels.add('several-errors')
         return self
+
+    def _record(self, ex):
+        """the first error is THE error of the reading; the reader then goes on only to collect later errors"""
+        e = {'kind': ex.kind, 'what': ex.what, 'chain': [list(c) for c in ex.path[:-1]],
+             'file': ex.path[-1][0], 'lo': ex.lo, 'hi': ex.hi}
+        if self.error is None:
+            self.error = e
+            self.labels.add('err:' + ex.what)
+            self._recovering = True
+            self.labels = set()  # labels describe the reading up to the first error only
+        elif e not in self.later_errors:
+            self.later_errors.append(e)
 
     def result(self):
         return {'phases': self.phases, 'error': self.error}
@@ -198,7 +232,8 @@ class Reader:
     def _read_file(self, path, default_phase, chain, stack):
         lines = split_lines(self.files[self.symlinks.get(path, path)])
         phase = default_phase
-        self.max_depth = max(self.max_depth, len(chain))
+        if not self._recovering:
+            self.max_depth = max(self.max_depth, len(chain))
         n = len(lines)
         i = 0
         declared = []
@@ -207,39 +242,54 @@ class Reader:
         self._visited.add(path)
         while i < n:
             line = lines[i]
-            if is_header_line(line):
-                if first_visit:
-                    borders.append(i)
-                name = header_name(line)
-                if name is None:
-                    raise self._err('syntax', header_error_class(line), chain, path, i + 1)
-                if name in declared:
-                    self.labels.add('repeated-phase')
-                declared.append(name)
-                if line != '[%s]' % name:
-                    self.labels.add('header-with-blanks')
-                self.headers_seen.append((path, name))
-                phase = name
+            try:
+                if is_header_line(line):
+                    if first_visit:
+                        borders.append(i)
+                    name = header_name(line)
+                    if name is None:
+                        phase = None  # (recovery) contents of an unknown phase: skipped
+                        raise self._err('syntax', header_error_class(line), chain, path, i + 1)
+                    if name in declared:
+                        self.labels.add('repeated-phase')
+                    declared.append(name)
+                    if line != '[%s]' % name:
+                        self.labels.add('header-with-blanks')
+                    self.headers_seen.append((path, name))
+                    phase = name
+                    i += 1
+                    continue
+                if phase is None:
+                    i += 1
+                    continue
+                if phase == 'act':
+                    self._act_line(path, i, line, chain)
+                    i += 1
+                    continue
+                if is_blank(line):
+                    self.labels.add('blank')
+                    i += 1
+                    continue
+                if is_comment(line):
+                    self.labels.add('comment')
+                    i += 1
+                    continue
+                tokens = line.split()
+                if tokens[0] == INCLUDING:
+                    self._include(path, i, line, tokens, phase, chain, stack)
+                    i += 1
+                    continue
+                i = self._instruction(path, lines, i, phase, chain)
+            except DocError as ex:
+                self._record(ex)
+                if ex.kind == 'syntax':
+                    phase = None  # the rest of the block has no certain reading: skip to the next header line
                 i += 1
-                continue
-            if phase == 'act':
-                self._act_line(path, i, line, chain)
+            except Ambiguous:
+                if not self._recovering:
+                    raise
+                phase = None
                 i += 1
-                continue
-            if is_blank(line):
-                self.labels.add('blank')
-                i += 1
-                continue
-            if is_comment(line):
-                self.labels.add('comment')
-                i += 1
-                continue
-            tokens = line.split()
-            if tokens[0] == INCLUDING:
-                self._include(path, i, line, tokens, phase, chain, stack)
-                i += 1
-                continue
-            i = self._instruction(path, lines, i, phase, chain)
 
     def _act_line(self, path, i, line, chain):
         text = un_escape(line)
@@ -255,12 +305,18 @@ class Reader:
             self.labels.add('act-line')
         if chain:
             self.labels.add('act-in-included')
-        self.phases['act'].append({'file': path, 'line': i + 1, 'text': text, 'chain': [list(c) for c in chain]})
+        if not self._recovering:
+            self.phases['act'].append({'file': path, 'line': i + 1, 'text': text, 'chain': [list(c) for c in chain]})
 
     def _include(self, path, i, line, tokens, phase, chain, stack):
         if len(tokens) != 2:
             raise self._err('syntax', 'including-arity', chain, path, i + 1)
-        target = posixpath.normpath(posixpath.join(posixpath.dirname(path), tokens[1]))
+        if tokens[1].startswith('{HOME}/'):
+            # an absolute path ({HOME} stands for the directory that the paths of `files` are relative to)
+            target = posixpath.normpath(tokens[1][len('{HOME}/'):])
+            self.labels.add('inclusion-absolute-path')
+        else:
+            target = posixpath.normpath(posixpath.join(posixpath.dirname(path), tokens[1]))
         link = (path, i + 1, line)
         here = list(chain) + [link]
         real = self.symlinks.get(target, target)  # the file itself, whatever it is called
@@ -274,6 +330,8 @@ class Reader:
                            here, i + 1, i + 1)
         self._budget -= 1
         if self._budget < 0:
+            if self._recovering:
+                raise _BudgetExceeded()
             raise RuntimeError('reference reader: inclusion budget exceeded (generator bug)')
         self.n_inclusions += 1
         self.labels.add('inclusion')
@@ -333,7 +391,8 @@ class Reader:
         src = [body] + lines[start + 1:end]
         el = {'file': path, 'line': start + 1, 'lines': src, 'desc': desc, 'chain': [list(c) for c in chain],
               'full_first_line': lines[start]}
-        self.phases[phase].append(el)
+        if not self._recovering:
+            self.phases[phase].append(el)
         if end - start > 1:
             self.labels.add('multi-line-element')
         else:
@@ -355,15 +414,21 @@ class Reader:
         if (len(tokens) == 1 and name in _NEEDS_ARGUMENT) or tokens[-1] == '=':
             # incomplete: the mandatory argument / the value is missing on this line
             k = start + 1
-            while k < n and (is_blank(lines[k]) or is_comment(lines[k])):
+            while k < n and is_blank(lines[k]):
                 k += 1
+            if k > start + 1:
+                self.labels.add('incomplete-then-blank')
+            if k < n and is_comment(lines[k]):
+                # a comment after an erroneous instruction, or the argument (a line with comment syntax that is
+                # part of an instruction): both are documented
+                raise Ambiguous('incomplete-then-comment')
             if k >= n:
                 self.labels.add('incomplete-then-eof')
             elif is_header_line(lines[k]):
                 self.labels.add('incomplete-then-header')
                 if self.swallow and len(lines[k].split()) == 1 and _takes_one_more_token(name, tokens) \
                         and lines[k].split()[0] not in _RESERVED:
-                    self.swallowed += 1
+                    self.swallowed += 0 if self._recovering else 1
                     return k + 1
             else:
                 # "some [instructions] may span multiple lines ... the syntax is not always consistent":
@@ -378,7 +443,9 @@ class Reader:
         while True:
             toks = tokens if k == start else lines[k].split()
             if toks:
-                depth += toks.count('(') - toks.count(')')
+                depth += toks.count('(') - toks.count(')') + toks.count('{') - toks.count('}')
+                if '{' in toks or '}' in toks:
+                    self.labels.add('braces-multi-line')
                 if depth < 0:
                     raise bad('unbalanced-parenthesis')
                 if _HEREDOC_RE.match(toks[-1]) and len(toks) > 1:
@@ -408,7 +475,7 @@ class Reader:
                         if self.swallow and '#' not in lines[k + 1]:
                             if any(t in _RESERVED for t in lines[k + 1].split()):
                                 raise bad('instruction-interrupted-by-header')  # a bare reserved word is no string
-                            self.swallowed += 1
+                            self.swallowed += 0 if self._recovering else 1
                             return k + 2
                         if self.list_reading == 'complete':
                             return k + 1  # the list simply has no more elements (as it has at end of file)
@@ -421,6 +488,10 @@ class Reader:
                     self.labels.add('operator-continuation')
                 else:
                     cont = depth > 0
+            if not cont and name == 'run' and k + 1 < n and lines[k + 1].split()[:1] == ['-stdin']:
+                # help syntax program: STDIN "must appear on a separate line"
+                self.labels.add('program-stdin-on-next-line')
+                cont = True
             if not cont:
                 return k + 1
             k += 1
